@@ -132,6 +132,24 @@ def check(rep, F, tier, replay=None):
             rep.lost("TxInputsBuilder::push_input no longer inserts into the input map (re-anchor REPLACE)")
         elif not cleans:
             rep.violation("REPLACE", "TxInputsBuilder::push_input|stale-script-witness", "push_input overwrites the registration of an outpoint that is already in the builder but never removes the outpoint from required_witnesses.scripts: after add_plutus_script_input(A, x) and add_plutus_script_input(B, x) both scripts, both datums and two Spend redeemers with the same index are emitted for one input", {})
+    # LAST-wins: a registration replaces the previous one of the same outpoint wholesale
+    rep.rule("LAST-wins", "what TxInputsBuilder::push_input stores under an outpoint comes from its argument alone (origins of the stored value: the parameter, never a read of TxInputsBuilder.inputs): the kind of an input - key / bootstrap / native / Plutus script, the marker that decides whether a Spend redeemer points at it - is that of the *last* registration; merging in the script-hash marker of an earlier registration leaves a redeemer pointing at an input that is no longer script-locked")
+    fid = find_fn(rep, F, "TxInputsBuilder::push_input")
+    if fid:
+        import fieldflow as _ff
+        fn_ = F.fns[fid]
+        org_ = _ff.Origins(F, fid)
+        ins_ = [c for c in F.calls(fid) if (c.to or "").endswith("BTreeMap::<K, V, A>::insert") and any(x.endswith("TxInputsBuilder.inputs") for x in org_.of_operand(fn_["bbs"][c.bb]["t"][3][0]))]
+        if not ins_:
+            rep.lost("TxInputsBuilder::push_input no longer inserts into TxInputsBuilder.inputs (re-anchor LAST-wins)")
+        for c in ins_:
+            rep.inst("LAST-wins")
+            o_ = org_.of_operand(fn_["bbs"][c.bb]["t"][3][2])
+            stale = sorted(x for x in o_ if x.endswith("TxInputsBuilder.inputs") or (x.startswith("call:") and re.search(r"BTreeMap::<K, V, A>::(get|get_mut|remove|entry|get_key_value)$", x.split("@")[0])))
+            if "arg:2" not in o_:
+                rep.lost("TxInputsBuilder::push_input: the stored value no longer comes from the parameter (origins %s)" % sorted(o_)[:6])
+            elif stale:
+                rep.violation("LAST-wins", "TxInputsBuilder::push_input|merges-previous", "push_input stores a value that also depends on the entry already registered for the outpoint (%s): an input first added as a Plutus / native script input and then again as a key input keeps the script-hash marker, so get_plutus_input_scripts still emits a (Spend, i) redeemer for an input that is key-locked - the set of redeemers depends on the call history, not on the final inputs" % ", ".join(H.short(x.split("@")[0]) for x in stale), {})
     from ruleutil import cert_cred_rule
     cert_cred_rule(rep, F)
     # EMIT-all: the collection a builder emits has one entry per entry of the container its redeemer indices are counted over
